@@ -656,6 +656,9 @@ func c05GenOps(r *Rand, n int, mode int) []c05Op {
 		}
 		return r.Pick(append(append([]int{}, c05IDs...), r.Intn(256))...)
 	}
+	// the property quantifies over value lengths 0-300; longer values (which still must not break
+	// anything: correspondence only, wf = false in the handler) are confined to one history in ten
+	long := r.Chance(1, 10)
 	drawLen := func() int {
 		switch mode {
 		case 0:
@@ -663,9 +666,13 @@ func c05GenOps(r *Rand, n int, mode int) []c05Op {
 		case 1:
 			return r.Pick(0, 1, 16, 17, 18, 100, 254, 255, r.Range(0, 255), r.Range(17, 255), 256)
 		case 2:
-			return r.Pick(4*r.Intn(76), 4*r.Intn(8), 0, 4, 256, 260, 300, r.Intn(300), r.Pick(301, 304, 1024, 1500))
+			n := r.Pick(4*r.Intn(76), 4*r.Intn(8), 0, 4, 256, 260, 300, r.Intn(300), r.Pick(301, 304, 1024, 1500))
+			if n > 300 && !long {
+				n = r.Pick(296, 299, 300)
+			}
+			return n
 		}
-		if r.Chance(1, 40) { // beyond the property's 0-300: still must not break anything
+		if long && r.Chance(1, 10) {
 			return r.Pick(301, 304, 1024, 1500)
 		}
 		return c05Lens[r.Intn(len(c05Lens))]
